@@ -141,7 +141,7 @@ func c02Logs(thorough bool) []c02Log {
 		// after its creation (B here); folding such an entry has to have them as well
 		c02MakeLog("stale-ping", [][]string{setup, {"+B", "A: JOIN #c"}, {"B: PING keepalive", "A: TOPIC #c :t"}, {"A: PRIVMSG #c :later"}}, []int{0, 1, 2, 100}, []int{2, 0, 0, 0}),
 		// a services link and a pseudo-client are folded into the snapshot state; the link acts afterwards
-		c02MakeLog("services-link", [][]string{setup, {"A: JOIN #c", "+S", "S: PASS :services=svcpw", "S: SERVER services.robustirc.net 1 :Services", "S: NICK ChanServ 1 1422134861 services robustirc.net services.robustirc.net 0 :Channel Services", "S: :ChanServ JOIN #c"}, {"S: SVSMODE a +r", "S: :ChanServ PRIVMSG #c :hello", "S: :services.robustirc.net SVSJOIN a #d"}, {"S: :ChanServ TOPIC #c ChanServ 1422134861 :topic", "A: PRIVMSG #c :later"}}, []int{0, 1, 2, 100}, []int{2, 0, 1, 0}),
+		c02MakeLog("services-link", [][]string{setup, {"A: JOIN #c", "+S", "S: PASS :services=svcpw", "S: SERVER services.robustirc.net 1 :Services", "S: NICK ChanServ 1 1422134861 services robustirc.net services.robustirc.net 0 :Channel Services", "S: :ChanServ JOIN #c"}, {"S: SVSMODE a +r", "S: :ChanServ PRIVMSG #c :hello", "S: :services.robustirc.net SVSJOIN a #d", "S: :ChanServ TOPIC #d ChanServ 0 :topic with time zero"}, {"S: :ChanServ TOPIC #c ChanServ 1422134861 :topic", "A: TOPIC #d", "A: PRIVMSG #c :later"}}, []int{0, 1, 2, 100}, []int{2, 0, 1, 0}),
 		// all new: nothing may ever be folded
 		c02MakeLog("all-new", [][]string{setup, join}, []int{100, 101}, []int{2, 0}),
 	}
